@@ -112,3 +112,18 @@ Proof.
     + intros [[[H| ->] HM] Hne]; [auto|]. rewrite str_eqb_refl in Hne. discriminate.
     + intros [H HM]. split; [auto|]. destruct (str_eqb_spec n INBOX) as [->|_]; [contradiction|reflexivity].
 Qed.
+
+(** role mailboxes: the names answered below Roles are exactly the role paths
+    that match reference+pattern *)
+Theorem role_names_exact roles reference pattern n :
+  (forall m, In m (role_paths roles) -> to_upper m = INBOX -> m = INBOX) ->
+  (In n (role_names roles reference pattern) <->
+   In n (role_paths roles) /\ has_prefix n ROLES = true /\
+   MatchesI (build_canonical_pattern reference pattern) n).
+Proof.
+  intros Huniq. unfold role_names. rewrite filter_In.
+  pose proof (filter_mailboxes_exact (role_paths roles) reference pattern n Huniq) as Hf. cbv zeta in Hf.
+  rewrite Hf. split.
+  - intros [[[H| ->] HM] Hp]; [auto|]. vm_compute in Hp. discriminate.
+  - intros (H & Hp & HM). auto.
+Qed.
